@@ -371,7 +371,10 @@ class Check:
         self.cov['notes'] = self.notes
         ev = dict(property_id=self.pid, tier=self.tier, seed=self.seed, level=self.level, coverage=self.cov,
                   assumptions=self.assumptions, wall_s=round(time.time() - self.t0, 2), violations=nviol)
-        evdir = EVID_DIR if not self.args.replay else os.path.join(OUT_DIR, 'replay-evidence')
+        # evidence/ describes runs against /repo itself only: replays and runs against a scratch copy
+        # (VERIF_REPO, mutation experiments) write elsewhere
+        scratch = os.path.realpath(REPO) != '/repo'
+        evdir = EVID_DIR if not (self.args.replay or scratch) else os.path.join(OUT_DIR, 'scratch-evidence' if scratch else 'replay-evidence')
         os.makedirs(evdir, exist_ok=True)
         with open(os.path.join(evdir, self.pid + '.json'), 'w') as f:
             json.dump(ev, f, indent=1, default=str)
